@@ -23,7 +23,8 @@ def run(ctx):
             strs += [s, "\\" + s, "XY_Z." + s, s + ".Q012.R345"]
     for _ in range(20000 if th else 3000):                    # random combinations
         strs.append(("\\" if rng.chance(1, 2) else "") + ".".join(g.seg() for _ in range(rng.choice([1, 2, 3, 4, 7, 20]))))
-    bad = ["", "\\", ".", "..", "A", "ABCDE", "ABCD.", ".ABCD", "\\.ABCD", "ABCD..EFGH", "\\\\ABCD", "^ABCD", "ABCD.EFG", "ABC.DEFG"]
+    bad = ["", "\\", ".", "..", "A", "ABCDE", "ABCD.", ".ABCD", "\\.ABCD", "ABCD..EFGH", "\\\\ABCD", "^ABCD", "ABCD.EFG", "ABC.DEFG",
+           "\\.", "\\ABCD.", "ABCD.EFGH.", "ABCD.EFGHI", "\\ABCD.EFGHI", "ABCD.EFGH.IJKLM", "A.B.C.D", "ABCD\\EFGH", "AB\u00e9D", "ABC\u00e9"]
     for nseg in range(1, 6):                                  # one segment of length 0..3 or 5..8 at every position
         for pos in range(nseg):
             for ln in (0, 1, 2, 3, 5, 6, 7, 8):
